@@ -140,3 +140,38 @@ Proof.
   - now left.
   - unfold unseen. eapply Nat.le_lt_trans; [apply filter_len_le|exact Hfuel].
 Qed.
+
+(* Since fix F78 the walk never answers "cyclic dependency", whatever the rows
+   say -- in particular on what a killed build leaves behind (old edges only
+   flagged for deletion next to the edges its successor recorded). *)
+Lemma walk_deps_no_cycle isd runid f r :
+  (forall w c s rs w' c' e, isd w c s rs <> Ret (VCycle, w', c', e)) ->
+  forall ds w c must evs w' c' e, walk_deps isd runid f r ds w c must evs <> Ret (VCycle, w', c', e).
+Proof.
+  intros Hisd. induction ds as [|[d rs] ds IH]; intros w c must evs w' c' e; cbn [walk_deps].
+  - destruct must; [destruct c; destruct (r_ovr r)|]; discriminate.
+  - destruct (d_mode d).
+    + destruct (exists_b w (r_name rs)); [destruct (r_csum r); discriminate|apply IH].
+    + destruct (isd w c (d_source d) rs) as [[[[v1 w1] c1] e1]|] eqn:E; [|discriminate].
+      destruct v1.
+      * apply IH.
+      * destruct (r_csum r); discriminate.
+      * apply IH.
+      * exfalso. exact (Hisd _ _ _ _ _ _ _ E).
+Qed.
+
+Theorem is_dirty_never_cyclic : forall fuel runid cyc w c f r mx seen w' c' e,
+  is_dirty fuel runid cyc w c f r mx seen <> Ret (VCycle, w', c', e).
+Proof.
+  induction fuel as [|fuel IH]; intros runid cyc w c f r mx seen w' c' e; [discriminate|].
+  cbn [is_dirty].
+  destruct (existsb (Nat.eqb f) seen); [discriminate|].
+  destruct (r_failed r); [discriminate|].
+  destruct (r_changed r) as [chg|]; [|discriminate].
+  destruct (Z.ltb mx chg); [discriminate|].
+  destruct (chk_is_checked c runid r f); [discriminate|].
+  destruct (r_stamp r) as [old|]; [|discriminate].
+  destruct (negb (stamp_eqb old (read_stamp w (r_name r)))); [destruct (r_csum r); discriminate|].
+  apply walk_deps_no_cycle. intros w1 c1 s rs w1' c1' e1.
+  destruct (existsb (Nat.eqb s) cyc); [discriminate|apply IH].
+Qed.
